@@ -66,7 +66,7 @@ COMPONENT_SCHEMAS = {
     "Item": {"type": "object", "required": ["name"], "properties": {"name": {"type": "string"}, "owner": {"$ref": "#/components/schemas/Owner"}}},
     "Owner": {"type": "object", "required": ["uid"], "properties": {"uid": {"type": "integer"}}},
 }
-MEDIA_TYPES = ["application/json", "application/problem+json", "text/plain", "*/*", "application/*"]
+MEDIA_TYPES = ["application/json", "application/problem+json", "text/plain", "*/*", "application/*", "application/json; charset=utf-8", "Application/Problem+JSON", "application/vnd.api+json;version=1"]
 HEADERS = {
     "X-Rate": ({"required": True, "schema": {"type": "integer", "minimum": 1}}, ["5"], ["0", "abc"]),
     "X-Opt": ({"schema": {"type": "string", "enum": ["a", "b"]}}, ["a"], ["c"]),
